@@ -42,6 +42,8 @@ Proof.
   - cbn [p_a p_b]. split; apply succ_step.
   - cbn [p_a p_b]. split; [apply succ_restart | apply succ_step].
   - cbn [p_a p_b]. split; [apply succ_step | apply succ_restart].
+  - cbn [p_a p_b]. split; [apply succ_step | apply succ_idle].
+  - cbn [p_a p_b]. split; [apply succ_idle | apply succ_step].
 Qed.
 
 (* a chain of Succ transitions passes c01_scan *)
